@@ -93,6 +93,22 @@ def run_case(arg):
             ev = os.path.join(work, "ev")
             env = {"VERIF_HASH_BITS": str(bits), "VERIF_EVLOG": ev, "VERIF_EVMAX": "3000000"}
             base = ["-c", comp, "-b", str(bs), "-j", str(j), "-Q", str(Q), "-q"]
+            flagged = {}
+            if tool == "gensquashfs" and idx % 3 == 1:
+                # per-file packing flags from a sort file (same priority, so the order is unchanged)
+                sf = os.path.join(work, "sort.txt")
+                lines = []
+                for d in "0123456789":
+                    fl = r.choice([[], ["dont_compress"], ["dont_fragment"], ["nosparse"], ["dont_compress", "dont_fragment"]])
+                    if fl:
+                        lines.append("0 [glob,%s] f???%s" % (",".join(fl), d))
+                        for p in tree:
+                            if p.endswith(d.encode()) and p:
+                                flagged[p] = tuple(fl)
+                with open(sf, "w") as f:
+                    f.write("\n".join(lines) + "\n")
+                base += ["-S", sf]
+                oc.inc("runs_with_sort_flags")
             if tool == "gensquashfs":
                 res = core.run_tool([B[tool]] + base + ["-D", root, out], env=env, timeout=600)
             else:
@@ -129,7 +145,7 @@ def run_case(arg):
                 oc.inc("files_compared")
                 if ino.sha256 != want:
                     oc.violate("dedup:content-differs:parser", "%r: expected %s got %s (size %d)" % (p, want[:12], (ino.sha256 or "")[:12], ino.size))
-                by_content[want].append((p, ino))
+                by_content[(want, flagged.get(p, ()))].append((p, ino))
             # identical files share storage
             for sha, lst in by_content.items():
                 if len(lst) < 2:
